@@ -11,6 +11,20 @@ E2 = "stateless model checking: exhaustive DFS of the choice tree of RNG answers
 E3 = "explicit-state BFS over operation histories of the real object, reference-model comparison in every state"
 
 CHECKS = {
+    "C07": dict(
+        built=True,
+        category="exploration",
+        engine="E1+E4",
+        technique=E1 + "; all 0/1 matrices up to 4x4 (and blocks of 5x4/4x5) x secondary subsets x limits, row-subset oracle, "
+        "cover/uncover LIFO-restoration tap on the real link structure",
+        text="All matrices with r,c <= 4 crossed with every subset of secondary columns and find_all; max_solutions / max_iter / "
+        "column-naming crossed on r,c <= 3 and on all 4x4 matrices; complete blocks of 5x4 and 4x5. Each selection is checked "
+        "to be an exact cover, find_all lists are compared with the set of all covers, INFEASIBLE with emptiness, input "
+        "immutability and repeatability are checked, and every _uncover must restore the snapshot taken before its _cover.",
+        note="Trusts: row-subset enumeration. The tap names the module-level helpers _build_links/_cover/_uncover; if they "
+        "disappear the black-box oracle still decides. Bound: <= 20 cells.",
+        ref="2/C07",
+    ),
     "C11": dict(
         built=True,
         category="exploration",
